@@ -110,7 +110,8 @@ class ModbusSim(PeerBase):
             return
         self.log.append((round(self.loop.time(), 9), n, req, frame))
         self.loop.ev("sim", self.owner, n, req["kind"], req["reg"])
-        if self.silent:
+        if self.silent or req["reg"] in getattr(self, "silent_regs", ()):
+            self.unanswered = getattr(self, "unanswered", set()) | {len(self.log) - 1}      # (indices into log: requests that got no answer)
             return
         resp = self.handle(req, kind)
         if resp is not None and kind == "tcp" and self.mbap_len_bug and len(resp) > 9 and resp[7] == 3:
@@ -118,6 +119,13 @@ class ModbusSim(PeerBase):
             resp = resp[0:4] + wrong.to_bytes(2, "big") + resp[6:]
         if resp is not None and getattr(self, "stray", b"") and ((kind == "tcp" and resp[7] == 3) or (kind != "tcp" and resp[3] == 3)):
             resp = resp + self.stray        # firmware that appends stray bytes to read answers (tolerated by the validators on purpose)
+        rt = getattr(self, "resp_txid", None)
+        if resp is not None and kind == "tcp" and rt is not None:
+            # a gateway that does not echo the transaction id: always the same id / the id of the previous request (the library's
+            # validator deliberately ignores that field)
+            tid = rt if isinstance(rt, int) else getattr(self, "_prev_txid", 1)
+            self._prev_txid = int.from_bytes(resp[0:2], "big")
+            resp = tid.to_bytes(2, "big") + resp[2:]
         if resp is not None:
             self.send_answer(s, resp, n)
 
@@ -139,7 +147,12 @@ class ModbusSim(PeerBase):
             if self.is_refused(reg, cnt):
                 return exc(req, 2)
             out_ = ok(req, self.get_bytes(reg, cnt))
-            if getattr(self, "drift", False) and cnt > 20:
+            if getattr(self, "drift", False) == "meter":
+                # only the METER values move on between polls; the running-data block (clock included) stays byte-identical
+                if reg in (30195, 36000):
+                    for a_ in (reg + 1, reg + 2, reg + 5):
+                        self.regs[a_] = (self.get(a_) + 1) % 5000
+            elif getattr(self, "drift", False) and cnt > 20:
                 # measurements move on between polls: the PV1 voltage rises by 0.1 V after every block read that contains it
                 for a_ in (35103, 30103):
                     if reg <= a_ < reg + cnt:
